@@ -169,6 +169,15 @@ func (c *FnCtx) callStatic(fr *Frame, st *State, callee *ssa.Function, args []SV
 	if c.eng.isPureExtern(full) {
 		return c.pureResult(st, callee, args, rt)
 	}
+	if modelledLibType(callee) {
+		// a method of a library type whose state the engine models (sync.Map, strings.Builder,
+		// mutexes, atomics ...) but for which it has no model: nothing is known afterwards
+		c.abstract("unmodelled method " + full + " of a modelled library type: all heaps havocked")
+		ms := newModSet()
+		ms.all = true
+		c.havoc(st, fr, ms, "unmodelled "+full)
+		return c.defaultResult(st, rt, callee.Name())
+	}
 	c.trusted["extern: "+full+" (result unconstrained, no effect on module state)"] = true
 	// may write through pointer/slice arguments
 	ms := newModSet()
@@ -1390,4 +1399,18 @@ func (c *FnCtx) havocEscaped(st *State, ms *loopModSet) {
 			}
 		}
 	}
+}
+
+// modelledLibType: methods on library types that carry engine-modelled ghost state.
+func modelledLibType(callee *ssa.Function) bool {
+	sig := callee.Signature
+	if sig == nil || sig.Recv() == nil {
+		return false
+	}
+	switch typeKey(derefType(sig.Recv().Type())) {
+	case "sync.Map", "strings.Builder", "sync.Mutex", "sync.RWMutex",
+		"atomic.Int64", "atomic.Uint64", "atomic.Int32", "atomic.Uint32", "atomic.Bool", "atomic.Value", "atomic.Pointer":
+		return true
+	}
+	return false
 }
